@@ -33,7 +33,7 @@ pub fn checks() -> Vec<Check> {
             id: "C05",
             title: "Established peer identity matches expectation and is never local",
             level: Level::FaultEnumeration,
-            rule: "the simulated transport authenticates each new connection as the expected peer, another peer or the local peer, independently on the dialling and the listening side (all 9 combinations enumerated by a forced schedule, plus random ones), for dials with and without an expected peer id, interleaved with ordinary traffic. Oracle: ConnectionEstablished only if the authenticated id equals the expected one (when given) and differs from the local id; otherwise OutgoingConnectionError(WrongPeerId{obtained}) / (LocalPeerId) resp. IncomingConnectionError(LocalPeerId), and the refused side's muxer is closed (poll_close observed) once the system is quiescent. Non-trivial = a dishonest authentication was injected; distinct = fingerprint of (auth kinds, expectation, outcome kinds)",
+            rule: "the simulated transport authenticates each new connection as the expected peer, another peer or the local peer, independently on the dialling and the listening side (all 9 combinations enumerated by a forced schedule, plus random ones), for ordinary and role-override (DialOpts::override_role) dials with and without an expected peer id, interleaved with ordinary traffic. Oracle: ConnectionEstablished only if the authenticated id equals the expected one (when given) and differs from the local id; otherwise OutgoingConnectionError(WrongPeerId{obtained}) / (LocalPeerId) resp. IncomingConnectionError(LocalPeerId), and the refused side's muxer is closed (poll_close observed) once the system is quiescent. Non-trivial = a dishonest authentication was injected; distinct = fingerprint of (auth kinds, expectation, outcome kinds)",
             assumptions: &["identity faults are injected by the stub transport, which is what a buggy or hostile security upgrade would look like to the Swarm"],
             real: REAL,
             stub: STUB,
@@ -260,7 +260,7 @@ fn dial_matrix() -> SimResult {
     {
         let mut s = a.swarm.borrow_mut();
         let b = s.behaviour_mut();
-        for (k, p) in [&mut b.p1, &mut b.p2, &mut b.p3].into_iter().enumerate() {
+        for (k, p) in b.fields_mut().into_iter().enumerate() {
             let mut c = p.cfg.lock().unwrap();
             for (ti, t) in targets.iter().enumerate() {
                 let mut v = vec![];
@@ -369,7 +369,7 @@ fn dial_matrix() -> SimResult {
             // union of the fields' answers, in field order
             let s = a.swarm.borrow();
             let b = s.behaviour();
-            for p in [&b.p1, &b.p2, &b.p3] {
+            for p in b.fields() {
                 cand.extend(p.cfg.lock().unwrap().addrs.get(&t.peer).cloned().unwrap_or_default());
             }
         }
@@ -463,11 +463,20 @@ fn auth_matrix() -> SimResult {
                 _ => "auth_as_other_peer",
             });
         }
+        // a dial may also run with the listener role (hole punching): the identity rules are the same
+        let override_role = choose(4) == 0;
         let opts = match with_peer {
-            1 => DialOpts::peer_id(b.peer).condition(PeerCondition::Always).addresses(vec![baddr.clone()]).build(),
-            2 => {
-                probe("dial-expecting-own-peer-id");
-                DialOpts::peer_id(a.peer).condition(PeerCondition::Always).addresses(vec![baddr.clone()]).build()
+            1 | 2 => {
+                if with_peer == 2 {
+                    probe("dial-expecting-own-peer-id");
+                }
+                let o = DialOpts::peer_id(if with_peer == 1 { b.peer } else { a.peer }).condition(PeerCondition::Always).addresses(vec![baddr.clone()]);
+                if override_role {
+                    probe("dial-with-role-override");
+                    o.override_role().build()
+                } else {
+                    o.build()
+                }
             }
             _ => DialOpts::unknown_peer_id().address(baddr.clone()).build(),
         };
